@@ -84,6 +84,34 @@ theorem C11_denied_response (chain : List Wrapper) (h : Handler) (req : Req)
       if req.path = pRoot ∨ req.path = pIndex then .redirect .login else .forbiddenAuth :=
   authFirst_denied chain h req hc hu hf hp ha
 
+/-! ## No other header takes part in the decision -/
+
+/-- The gate's own decision is a function of the path, the class of the session
+cookie, the class of the basic credentials and "a user exists" — of nothing else
+in the request (no method, no `Origin`/`Access-Control-*`, no forwarding
+headers): it answers `authDecision …` or, when that is `none`, calls the
+wrapped handler. -/
+theorem C11_auth_decision_factors (g : Handler) (req : Req) :
+    optionalAuthW g req =
+      (authDecision req.path req.cookie req.basic req.usersExist).getD (g req) :=
+  optionalAuthW_decision g req
+
+/-- For any chain: two requests that differ only in their other headers (an
+arbitrary list of name/value pairs) get the same answer, provided the innermost
+handler itself answers them alike.  In particular whether the handler is entered
+does not depend on those headers. -/
+theorem C11_auth_ignores_other_headers (chain : List Wrapper) (h : Handler) (a b : Req)
+    (hs : sameButHeaders a b) (hh : h a = h b) : run chain h a = run chain h b := by
+  induction chain with
+  | nil => exact hh
+  | cons w c ih => rw [run_cons]; exact apply_headers w _ a b hs ih
+
+/-- The form used against the implementation: replacing the header list changes
+nothing in what the wrappers do. -/
+theorem C11_headers_irrelevant (chain : List Wrapper) (req : Req) (hs : List (Bytes × Bytes)) :
+    run chain (fun _ => .ran) { req with headers := hs } = run chain (fun _ => .ran) req :=
+  C11_auth_ignores_other_headers chain _ _ _ ⟨rfl, rfl, rfl, rfl, rfl, rfl, rfl, rfl⟩ rfl
+
 /-! ## Method and content type -/
 
 /-- Behind `ensure m` the handler is entered only with method `m`, and for a
@@ -307,6 +335,14 @@ example : run chainPOST (fun _ => .ran) (reqStatus .valid .none) = .methodNotAll
 example : run chainPOST (fun _ => .ran)
     { reqStatus .valid .none with method := sPOST, ctype := [120], contentLength := 2 } = .unsupportedMedia := by
   decide
+-- a CORS-preflight-looking request without credentials is denied like any other
+private def reqPreflight : Req :=
+  { path := pStatus, method := [79, 80, 84, 73, 79, 78, 83], cookie := .none, basic := .none,
+    ctype := [], contentLength := 0, firstRun := false, usersExist := true,
+    headers := [([79, 114, 105, 103, 105, 110], [120]),
+                ([65, 67, 82, 77], [80, 79, 83, 84])] }
+example : run chainGET (fun _ => .ran) reqPreflight = .forbiddenAuth := by decide
+example : run [.postInstall, .optionalAuth] (fun _ => .ran) reqPreflight = .forbiddenAuth := by decide
 -- unknown length (chunked): no content type 415, form 415, JSON passes — also when
 -- nothing says the body is non-empty
 example : run chainPOST (fun _ => .ran)
